@@ -6,7 +6,8 @@ package fasthttp
 // response carrying the same id behind CRLF padding, so that spliced bytes are delivered
 // rather than rejected).  Server programs: complete answer, Connection: close, connection cut
 // after any prefix, delayed tails.  Caller programs: buffered; streamed and read to the end;
-// streamed, read k bytes, CloseBodyStream; streamed and closed at once; short timeouts.
+// streamed, read k bytes, CloseBodyStream; streamed and closed at once; streamed, read k bytes,
+// perform further calls on the same goroutine, then read the rest; short timeouts.
 // Non-idempotent methods with MaxIdemponentCallAttempts=1 dominate, so a retry cannot mask a
 // reused connection.  The log (server: send/push, connection: pull/close, ReleaseConn hook:
 // rel, caller: head/ret) is validated against specs/client/ClientRoundTripTrace.tla; the
@@ -54,6 +55,7 @@ type c04Rec struct {
 	qmu     sync.Mutex        // makes "log the plan + enqueue its units" atomic per server decision
 	eofPlan map[*c18Conn]bool // the server has decided to close this connection
 	cut     map[int]bool      // requests whose answer the server cut short (or never gave)
+	cur     map[uint64]int    // goroutine -> the call on whose behalf it is reading right now
 	slowPct int
 }
 
@@ -114,7 +116,10 @@ func (r *c04Rec) dial(addr string) (net.Conn, error) {
 	c.onReq = r.serve
 	c.onPull = func(c *c18Conn, tag any) {
 		t := tag.(c04Tag)
-		r.log(vfRec{"ev": "pull", "c": c.id, "id": t.id, "eof": 0})
+		gid := c18Gid() // conn.Read runs on the goroutine of whoever reads: a call inside Do, or the owner of a body stream
+		r.mu.Lock()
+		r.evs = append(r.evs, vfRec{"ev": "pull", "c": c.id, "id": t.id, "eof": 0, "by": r.cur[gid]})
+		r.mu.Unlock()
 	}
 	c.onEOF = func(c *c18Conn) { r.log(vfRec{"ev": "pull", "c": c.id, "id": 0, "eof": 1}) }
 	c.onClose = func(c *c18Conn) { r.log(vfRec{"ev": "close", "c": c.id}) }
@@ -293,7 +298,7 @@ type c04Exec struct {
 
 func c04RunOne(rng *rand.Rand, cfg c04Cfg, stats map[string]int) (ex c04Exec, viols [][2]string) {
 	rec := &c04Rec{srng: rand.New(rand.NewSource(rng.Int63())), done: make(chan struct{}),
-		queues: map[*c18Conn]chan c04Push{}, eofPlan: map[*c18Conn]bool{}, cut: map[int]bool{}, slowPct: cfg.slowPct}
+		queues: map[*c18Conn]chan c04Push{}, eofPlan: map[*c18Conn]bool{}, cut: map[int]bool{}, cur: map[uint64]int{}, slowPct: cfg.slowPct}
 	VerifHook = rec.hook
 	defer func() { VerifHook = nil }()
 	var doer c04Doer
@@ -303,11 +308,11 @@ func c04RunOne(rng *rand.Rand, cfg c04Cfg, stats map[string]int) (ex c04Exec, vi
 		attempts = 2
 	}
 	if cfg.useClient {
-		cl := &Client{Dial: rec.dial, MaxConnsPerHost: cfg.maxConns, MaxConnWaitTimeout: 2 * time.Second,
+		cl := &Client{Dial: rec.dial, MaxConnsPerHost: cfg.maxConns, MaxConnWaitTimeout: 500 * time.Millisecond,
 			MaxResponseBodySize: 200, MaxIdemponentCallAttempts: attempts}
 		doer, closeIdle = cl, cl.CloseIdleConnections
 	} else {
-		hc := &HostClient{Addr: "c04.test:80", Dial: rec.dial, MaxConns: cfg.maxConns, MaxConnWaitTimeout: 2 * time.Second,
+		hc := &HostClient{Addr: "c04.test:80", Dial: rec.dial, MaxConns: cfg.maxConns, MaxConnWaitTimeout: 500 * time.Millisecond,
 			MaxResponseBodySize: 200, MaxIdemponentCallAttempts: attempts}
 		doer, closeIdle = hc, hc.CloseIdleConnections
 	}
@@ -331,11 +336,22 @@ func c04RunOne(rng *rand.Rand, cfg c04Cfg, stats map[string]int) (ex c04Exec, vi
 		wrng := rand.New(rand.NewSource(rng.Int63()))
 		go func() {
 			defer wg.Done()
-			for k := 0; k < cfg.calls; k++ {
+			gid := c18Gid()
+			setCur := func(id int) {
+				rec.mu.Lock()
+				rec.cur[gid] = id
+				rec.mu.Unlock()
+			}
+			var runCall func(depth int)
+			runCall = func(depth int) {
 				id := int(nextID.Add(1))
+				setCur(id)
 				want := []string{"small", "large", "chunkS", "chunkL"}[wrng.Intn(4)]
 				streamed := wrng.Intn(100) < cfg.streamPct
-				prog := []string{"all", "some", "none"}[wrng.Intn(3)]
+				prog := []string{"all", "some", "none", "hold"}[wrng.Intn(4)]
+				if prog == "hold" && (depth > 0 || cfg.maxConns < 2) {
+					prog = "all"
+				}
 				method := "POST"
 				if wrng.Intn(100) < cfg.getPct {
 					method = "GET"
@@ -412,6 +428,18 @@ func c04RunOne(rng *rand.Rand, cfg c04Cfg, stats map[string]int) (ex c04Exec, vi
 						buf := make([]byte, 1+wrng.Intn(len(full)))
 						n, _ := io.ReadFull(bs, buf)
 						got = buf[:n]
+					case "hold":
+						// keep the half-read body stream open across further calls on this goroutine, then
+						// read it to its end: every byte must still be this call's
+						buf := make([]byte, 1+wrng.Intn(len(full)-1))
+						n, _ := io.ReadFull(bs, buf)
+						got = buf[:n]
+						for j := 1 + wrng.Intn(2); j > 0; j-- {
+							runCall(depth + 1)
+						}
+						setCur(id)
+						rest, _ := io.ReadAll(bs)
+						got = append(got, rest...)
 					}
 					if okID && !bytes.HasPrefix(full, got) {
 						viol("body-corrupt:"+desc, fmt.Sprintf("request %d: %d streamed bytes are not a prefix of its body", id, len(got)))
@@ -423,6 +451,9 @@ func c04RunOne(rng *rand.Rand, cfg c04Cfg, stats map[string]int) (ex c04Exec, vi
 				}
 				ReleaseRequest(req)
 				ReleaseResponse(resp)
+			}
+			for k := 0; k < cfg.calls; k++ {
+				runCall(0)
 			}
 		}()
 	}
@@ -458,7 +489,7 @@ func TestVerifC04RoundTrip(t *testing.T) {
 	stats := map[string]int{}
 	calls, nviol, events := 0, 0, 0
 	for i := 1; i <= ntr && nviol < 8; i++ {
-		cfg := c04Cfg{maxConns: 1 + rng.Intn(2), workers: 1 + rng.Intn(3), calls: 3 + rng.Intn(5), useClient: rng.Intn(3) == 0,
+		cfg := c04Cfg{maxConns: 1 + rng.Intn(3), workers: 1 + rng.Intn(3), calls: 3 + rng.Intn(5), useClient: rng.Intn(3) == 0,
 			getPct: []int{0, 0, 25}[rng.Intn(3)], slowPct: []int{0, 30, 60}[rng.Intn(3)], streamPct: []int{30, 60, 90}[rng.Intn(3)]}
 		ex, viols := c04RunOne(rng, cfg, stats)
 		for _, v := range viols {
@@ -492,7 +523,7 @@ func TestVerifC04RoundTrip(t *testing.T) {
 		extra["calls_"+k] = v
 	}
 	// non-trivial: calls that got a streamed response (the stream-close path decides about reuse)
-	nontriv := stats["ok-streamed-all"] + stats["ok-streamed-some"] + stats["ok-streamed-none"]
+	nontriv := stats["ok-streamed-all"] + stats["ok-streamed-some"] + stats["ok-streamed-none"] + stats["ok-streamed-hold"]
 	vfStat(calls, nontriv, extra)
 	vfDone()
 }
